@@ -267,7 +267,7 @@ func (ex *expander) walk(dot interp.Value, n parse.Node) error {
 		ex.vars = saved
 		return err
 	case *parse.BreakNode, *parse.ContinueNode:
-		return ex.undecided(n, "template construct %s is outside the analysed vocabulary", n.Type())
+		return ex.undecided(n, "template construct %s is outside the analysed vocabulary", fmt.Sprint(n.Type()))
 	}
 	return ex.undecided(n, "template node %T is outside the analysed vocabulary", n)
 }
